@@ -41,8 +41,11 @@ FILES = {
     "OSq.Proofs.CircuitSem7": {"C02": None},
     "OSq.Proofs.CircuitSem8": {"C06": None},
     "OSq.Proofs.CheckIff": {"C16": None, "C06": ["OSq.checkGateReplacement", "OSq.lift_injective", "OSq.equivPhase_iff_crisp"], "C17": ["OSq.compareGatesWith_iff_exact"]},
-    "OSq.Proofs.Main": {"C01": None, "C05": None},
-    "OSq.Proofs.Main2": {"C01": None, "C05": None},
+    "OSq.Proofs.Main": {"C01": None, "C05": ["OSq.C01_of_gate_ok"], "C10": ["OSq.mckayDecompose_ok"]},
+    "OSq.Proofs.Main2": {"C05": None, "C03": ["OSq.map_step_sem"]},
+    "OSq.Proofs.Main3": {"C01": None, "C10": ["OSq.cnotDecompose_total"]},
+    "OSq.Proofs.Main4": {"C02": None, "C05": None},
+    "OSq.Proofs.Main5": {"C01": None, "C06": None},
     "OSq.Proofs.RoundTrip": {"C04": None, "C12": None, "C20": None},
     "OSq.Proofs.GateTable": {"C07": None},
     "OSq.Proofs.Shape": {"C10": None},
